@@ -202,8 +202,36 @@ def dynamic_part(res, ctx, names):
         res.count('twin_pairs')
 
 
+def odd_parsers_first(res):
+    """Other users of the library in the same process must not change what is registered: parsers with an empty,
+    a reduced (only the _nocancel names) and a renamed code table are created and used before the audit."""
+    from pykdebugparser.traces_parser import TracesParser
+    codes = ev.bundled_codes()
+    tables = [{}, {k: v for k, v in codes.items() if v.endswith('_nocancel')}, {k: 'X' + v for k, v in codes.items()},
+              {k | 1: v for k, v in codes.items()}]
+    for t in tables:
+        try:
+            p = TracesParser(t, {}, {})
+            for e in H.materialize(H.on_thread(6, H.syscall('BSC_read_nocancel', (3, 4, 5, 6), (0, 5, 0, 0)))):
+                p.feed(e)
+        except Exception as x:
+            res.violation(f'c17-custom-table-raises-{core.exc_name(x)}', f'parser with a custom code table: {x!r}', {})
+        res.count('custom_table_parsers_created_first')
+        # a parser created afterwards with the bundled table must register exactly the union of the family tables
+        union = set()
+        for table in families().values():
+            union |= set(table)
+        now = set(ev.new_parser().handlers)
+        if now != union:
+            res.violation('c17-registration-depends-on-other-parsers', f'after a parser with a custom code table '
+                          f'({len(t)} entries) was used, a new parser registers {len(now)} decoders instead of {len(union)}; '
+                          f'missing e.g. {sorted(union - now)[:4]}', {})
+            return
+
+
 def run(ctx):
     res = core.Result()
+    odd_parsers_first(res)
     if ctx.shard == 0:
         names, _ = static_part(res)
         res.exhaustive = True
